@@ -832,12 +832,21 @@ func slotSum(c *Ctx, m string, dec *ssa.Function) {
 		}
 	}
 	if len(fs) == 0 {
-		r.Bad("A2.decorator-checks", m+"|slots-summed", w.Pos(dec.Pos()), "the "+m+" decorator asks the keeper for the purchasable maximum", "no call of GetMaxPurchasableSlots on the decorator's route")
-		return
+		// the lookup is handed on as a method value (rules.MaxPurchasable = bk.GetMaxPurchasableSlots): that the check runs is
+		// the |slots obligation above; the adding up is looked for on the whole route
+		fs = []*ssa.Function{dec}
+	}
+	// the adding up may stand in a helper of the decorator (slotDemands(msgs)): every function of the module on its route
+	var route []*ssa.Function
+	for g := range w.Reachable([]*ssa.Function{dec}) {
+		if !w.IsGenerated(g) && ir.FnPkg(g) != nil && ir.InScope(ir.FnPkg(g)) && !strings.HasSuffix(ir.RelPkg(ir.FnPkg(g).Path()), "/keeper") {
+			route = append(route, g) // (the module's ante package, and helper packages the two decorators share)
+		}
 	}
 	sortFuncs(fs)
+	sortFuncs(route)
 	ok := false
-	for _, g := range fs {
+	for _, g := range route {
 		for _, b := range g.Blocks {
 			for _, in := range b.Instrs {
 				bo, isBin := in.(*ssa.BinOp)
@@ -847,8 +856,16 @@ func slotSum(c *Ctx, m string, dec *ssa.Function) {
 				if bt, isBasic := bo.Type().Underlying().(*types.Basic); !isBasic || bt.Info()&types.IsInteger == 0 {
 					continue
 				}
+				if bt := bo.Type().Underlying().(*types.Basic); bt.Kind() != types.Uint64 {
+					continue
+				}
 				isNumber := func(v ssa.Value) bool {
-					return w.ExprOf(v).Any(func(z *ir.Expr) bool { return z.Op == "field" && z.Name == "Number" })
+					e := w.ExprOf(v)
+					if e.Any(func(z *ir.Expr) bool { return z.Op == "field" && z.Name == "Number" }) {
+						return true
+					}
+					// the number carried along: a parameter of a shared helper (`Add(id, n, ...)`), a field of a purchase collected before
+					return e.Op == "param" || e.Op == "field" && !e.Any(func(z *ir.Expr) bool { return z.Op == "lookup" })
 				}
 				isNoted := func(v ssa.Value) bool {
 					if ph, isPhi := v.(*ssa.Phi); isPhi {
